@@ -328,9 +328,9 @@ PROPERTIES = {
                 "non-trivial = contains '~' or an inner '/'; distinct = distinct case lines",
     },
     "C14": {
-        "regen": {"groups": ['Pointer']},
+        "regen": {"groups": ['Pointer', 'Conv', 'Token', 'PtrOps', 'Buf', 'PtrBuild']},
         "technique": REGEN_TECHNIQUE,
-        "level_suffix": regen_note('validate, validate_bytes, the ParseError accessors offset / pointer_offset / source_offset / complete_offset / invalid_encoding_len / is_no_leading_slash / is_invalid_encoding and its Diagnostic::labels (src/pointer.rs)'),
+        "level_suffix": regen_note('validate, validate_bytes, the ParseError accessors offset / pointer_offset / source_offset / complete_offset / invalid_encoding_len / is_no_leading_slash / is_invalid_encoding, its Diagnostic::labels, and PointerBuf::parse with the report it builds (src/pointer.rs; Diagnostic::into_report is Report::new(error, subject), modelled as the pair)'),
         "runs": [{"suite": "parse"}],
         "level_text": "Proved in Coq for all byte strings: NoLeadingSlash iff the non-empty input does not start with '/'; for InvalidEncoding the two loop counters are carried "
                       "through the skip-ahead as an explicit invariant, giving complete_offset = index of the first '~' not followed by '0'/'1', pointer_offset = the nearest '/' at or before it, "
